@@ -60,7 +60,7 @@ Asrt(r)      == Stmt("assert", 0, 0, "", r)        \* r = "ok" | "fail" | "mal"
 RtErr        == Stmt("rterr", 0, 0, "", "")        \* a statement that fails at run time (fail "...")
 TyErr        == Stmt("tyerr", 0, 0, "", "")        \* a statement the static checker rejects
 
-Positions == {"top", "nested", "funcBody", "callback", "failMsg", "moduleBody", "moduleOut", "fmtExpr"}
+Positions == {"top", "nested", "funcBody", "callback", "failMsg", "moduleBody", "moduleOut", "fmtExpr", "conAnn"}
 (* the let whose derived shape is an unresolved import is resolved statically
    (typecheck/mod.rs:1473): direct import, call result, func-op result, module
    out-expression -- as rendered by vp/buildproj.py *)
@@ -68,7 +68,9 @@ StaticVisible(pos) == pos \in {"top", "funcBody", "callback", "moduleOut"}
 (* positions the AST walker does not descend into (walk.rs:128-141,150-155,189-192) *)
 (* "fmtExpr": inside the @{...} of a format string - parsed out of the template while translating,  *)
 (* after the walk (translate.rs translate_template_part); rewritten there since its own fix commit *)
-WalkerBlind(pos) == pos \in {"callback", "failMsg", "moduleOut", "fmtExpr"}
+(* "conAnn": inside the constraint annotation of a let (`let x :: (import "f").s = v`) - walk.rs does *)
+(* not descend there; the Rewriter does on its own since a fix commit                              *)
+WalkerBlind(pos) == pos \in {"callback", "failMsg", "moduleOut", "fmtExpr", "conAnn"}
 
 (* ---- paths: sequences of components ------------------------------------- *)
 (* "/" is the scratch root; the project lives in /p and /p/s; /q is elsewhere *)
